@@ -84,30 +84,30 @@ theorem addInline_sublist (l : List (Elem α)) : List.Sublist l (addInline l) :=
     · exact List.Sublist.cons_cons _ (List.Sublist.cons _ ih)
     · exact List.Sublist.cons_cons _ ih
 
-theorem addBooster_sublist (src : String) (sk : EndKind) (l : List (Elem α)) :
-    List.Sublist l (addBooster src sk l) := by
+theorem addBooster_sublist (src : String) (sk : EndKind) (m : Bool) (l : List (Elem α)) :
+    List.Sublist l (addBooster src sk m l) := by
   unfold addBooster
   split
   · exact List.Sublist.cons _ (List.Sublist.refl _)
   · exact List.Sublist.refl _
 
-theorem addPreamp_sublist (dst : String) (dk : EndKind) (l : List (Elem α)) :
-    List.Sublist l (addPreamp dst dk l) := by
+theorem addPreamp_sublist (dst : String) (dk : EndKind) (m : Bool) (l : List (Elem α)) :
+    List.Sublist l (addPreamp dst dk m l) := by
   unfold addPreamp
   split
   · exact List.sublist_append_left _ _
   · exact List.Sublist.refl _
 
-theorem addBooster_getLast (src : String) (sk : EndKind) (l : List (Elem α)) :
-    (addBooster src sk l).getLast? = l.getLast? := by
+theorem addBooster_getLast (src : String) (sk : EndKind) (m : Bool) (l : List (Elem α)) :
+    (addBooster src sk m l).getLast? = l.getLast? := by
   unfold addBooster
   split
   · simp [List.getLast?_cons_cons]
   · rfl
 
 /-- after `addBooster` a chain that starts at a ROADM does not start with a Fiber -/
-theorem addBooster_head (src : String) (l : List (Elem α)) :
-    ∀ e, (addBooster src .roadm l).head? = some e → e.isFiber = false := by
+theorem addBooster_head (src : String) (m : Bool) (l : List (Elem α)) :
+    ∀ e, (addBooster src .roadm m l).head? = some e → e.isFiber = false := by
   intro e he
   cases l with
   | nil => simp [addBooster] at he
@@ -118,8 +118,8 @@ theorem addBooster_head (src : String) (l : List (Elem α)) :
     | edfa u p => simp [addBooster] at he; subst he; rfl
 
 /-- after `addPreamp` a chain that ends at a ROADM does not end with a Fiber -/
-theorem addPreamp_getLast (dst : String) (l : List (Elem α)) :
-    ∀ e, (addPreamp dst .roadm l).getLast? = some e → e.isFiber = false := by
+theorem addPreamp_getLast (dst : String) (m : Bool) (l : List (Elem α)) :
+    ∀ e, (addPreamp dst .roadm m l).getLast? = some e → e.isFiber = false := by
   intro e he
   unfold addPreamp at he
   cases hl : l.getLast? with
@@ -192,6 +192,55 @@ theorem addInline_uids (l : List (Elem α)) :
       exact List.perm_middle.symm
     · simp only [List.map_cons, List.cons_append]
       exact List.Perm.cons _ ih
+
+
+/-- no amplifier among the elements -/
+def NoAmp (l : List (Elem α)) : Prop := ∀ e ∈ l, e.isEdfa = false
+
+theorem hasMulti_noAmp (l : List (Elem α)) (h : NoAmp l) : hasMulti l = false ∧ hasSingle l = false := by
+  unfold hasMulti hasSingle
+  constructor
+  · rw [List.any_eq_false]
+    intro e he
+    have := h e he
+    cases e <;> simp [Elem.isEdfa, Elem.isMulti] at this ⊢
+  · rw [List.any_eq_false]
+    intro e he
+    have := h e he
+    cases e <;> simp [Elem.isEdfa, Elem.isSingle] at this ⊢
+
+theorem hasMulti_append_amp (l : List (Elem α)) (h : NoAmp l) (u : String) (m : Bool) :
+    hasMulti (l ++ [.edfa u (newAmp m)]) = m := by
+  have := (hasMulti_noAmp l h).1
+  unfold hasMulti at this ⊢
+  simp [List.any_append, this, Elem.isMulti, newAmp]
+
+/-- inline amplifiers inserted in front of a closing amplifier of kind `m` (the preamp) all get kind `m` -/
+theorem addInline_kinds (l : List (Elem α)) (h : NoAmp l) (u : String) (m : Bool) :
+    ∀ e ∈ addInline (l ++ [.edfa u (newAmp m)]), e.isEdfa = true → e.isMulti = m := by
+  induction l with
+  | nil =>
+    intro e he _
+    simp [addInline] at he
+    subst he; simp [Elem.isMulti, newAmp]
+  | cons x rest ih =>
+    have hrest : NoAmp rest := fun e he => h e (List.mem_cons_of_mem _ he)
+    have hx : x.isEdfa = false := h x (by simp)
+    intro e he hamp
+    simp only [List.cons_append, addInline] at he
+    split at he
+    · rename_i u' p' v q t heq
+      simp only [List.mem_cons] at he
+      rcases he with he | he | he
+      · subst he; simp [Elem.isEdfa] at hamp
+      · subst he
+        simp only [Elem.isMulti, newAmp]
+        exact hasMulti_append_amp rest hrest u m
+      · exact ih hrest e he hamp
+    · simp only [List.mem_cons] at he
+      rcases he with he | he
+      · subst he; rw [hx] at hamp; simp at hamp
+      · exact ih hrest e he hamp
 
 end
 end Gnpy.Chain
